@@ -579,7 +579,7 @@ Definition valid_op (F : file) (o : op) : bool :=
   | CFI eh => match (if eh then f_ehcfi F else f_cfi F) with Some _ => true | None => false end
   | CFIDecoded eh i =>
       match (if eh then f_ehcfi F else f_cfi F) with Some _ => true | None => false end &&
-      (0 <=? i) && match nth_error (cfi_ents F eh) (Z.to_nat i) with Some e => ent_kind e <? 2 | None => false end
+      (0 <=? i) && match nth_error (cfi_ents F eh) (Z.to_nat i) with Some e => (ent_kind e =? 0) || (ent_kind e =? 1) | None => false end
   | NewIterCUs _ | NewIterSections _ | Next _ => true
   | NewIterSymbols _ | ESymbolByName _ => has_symtab F
   | NewIterTags _ | ENumTags => has_dyn F
